@@ -223,7 +223,7 @@ class MultiEmbeddingTensor(_MultiTensor):
         return MultiEmbeddingTensor(
             num_rows=0 if dim == 0 else self.num_rows,
             num_cols=0 if dim == 1 else self.num_cols,
-            values=torch.tensor([], device=self.device, dtype=self.dtype),
+            values=self.values[:0] if dim == 0 else self.values[:, :0],
             offset=torch.tensor([0], device=self.device, dtype=torch.long)
             if dim == 1 else self.offset,
         )
